@@ -14,11 +14,16 @@ Model: `Model/Cats/Validate.lean` (both modes of `AstValidator`).
 * `validate_total`: the model always returns a list (Lean functions are total); that the *Python* reports instead of crashing is
   checked by the correspondence run, which lists three crash sites of the unchanged tree as known findings.
 
-Not proved (see the end of the file): that `postProcess` maps member-level consistency of the declared bodies to member-level
-consistency of the expanded layouts (`Consistent` therefore states the condition for the expanded schema directly).
+The two stages are related through expansion by `expand_preserves_consistent` / `post_errors_after_clean_pre`: after a clean
+PRE_EXPANSION stage the member-level clauses that do not read an attribute-introduced reference survive expansion (under the
+decidable side conditions `DeclaredBeforeUse` and `refsWellFormed`, and for every struct whose expanded member names are
+distinct), so the only POST_EXPANSION errors left are the attribute kinds - or come with a duplicate-member error for the same
+struct.  Each side condition is shown to be necessary by a concrete witness (`clash_breaks_condition`, `inline_site_reference_breaks`,
+`value_reference_breaks`), and the attribute kinds are shown to be reachable (`attribute_reference_only_seen_after_expansion`).
 -/
 import SymbolVerif.Proofs.CatsValidate
 import SymbolVerif.Model.Cats.Expand
+import SymbolVerif.Proofs.CatsPostClean
 namespace SymbolVerif.C06
 open SymbolVerif.Cats
 
@@ -596,10 +601,204 @@ theorem error_names_its_declaration {mode : Mode} {S : Schema} {e : ErrorDescrip
     crashes" is the correspondence check's) -/
 theorem validate_total (mode : Mode) (S : Schema) : ∃ errs, validate mode S = errs := ⟨_, rfl⟩
 
+/-! ## the two stages related through expansion (C06 x C05) -/
+
+/-- **expand_preserves_consistent**: let the PRE_EXPANSION stage report nothing and post-processing succeed.  Then in every
+    struct of the expanded schema no unnamed inline is left, and - when its member names are distinct - every member satisfies
+    all member-level clauses that do not read an attribute-introduced reference, checked exactly as the validator checks them
+    (environment `envOf M'` = `field_map`): its type is known (and a named inline names an inline struct), its element type is
+    known, its array size member exists (after prefixing), its `sizeof` target exists, is re-pointed and names a struct with
+    `is_size_implicit`, its condition member exists (after prefixing) with the condition value in range for its type, its
+    constant / reserved value is in range, its attributes apply.
+    Side conditions (all decidable, on the source): `DeclaredBeforeUse S`; `refsWellFormed S` = named inline sites have names
+    not starting with an underscore, and no reference is `__value__` or the name of a named inline site. -/
+theorem expand_preserves_consistent {S E : Schema} (hdbu : DeclaredBeforeUse S) (hwf : refsWellFormed S = true)
+    (hpre : validate .pre S = []) (hE : postProcess S = .ok E) :
+    ∀ M', Decl.struct M' ∈ E → noPlaceholders M'.fields = true ∧
+      ((M'.structFields.map (·.name)).Nodup → ∀ f' ∈ M'.structFields, StableOK E (envOf M') f' ∧ stableFieldErrors E M' f' = []) := by
+  intro M' hM'
+  obtain ⟨hclean, hno⟩ := (post_clean_decls hdbu hwf hpre hE).1 M' hM'
+  refine ⟨hno, ?_⟩
+  intro hnd f' hf'
+  have : StableOK E (envOf M') f' := stable_env_le (fun r _ k h => memberEnv_sub_envOf hnd h) (hclean f' hf').1
+  exact ⟨this, stableFieldErrors_nil_iff.mpr this⟩
+
+/-- **post_errors_after_clean_pre**: which POST_EXPANSION errors are still possible after a clean PRE_EXPANSION stage: only
+    the kinds that read an attribute-introduced reference (`attributeKinds`: unknown sizeref / sort_key member, and the struct
+    attribute checks), unless the same struct also gets a duplicate-member error (a name clash created by inlining).
+    Impossible on their own, therefore: unknown member / element / inlined type, named inline of a non-inline struct, unknown
+    size member, unknown / fixed-size / not-implicit sizeof, unknown condition member, value not in the enumeration or not
+    numeric, inapplicable attribute, duplicate enumeration values. -/
+theorem post_errors_after_clean_pre {S E : Schema} (hdbu : DeclaredBeforeUse S) (hwf : refsWellFormed S = true)
+    (hpre : validate .pre S = []) (hE : postProcess S = .ok E) :
+    ∀ e ∈ validate .post E, e.kind ∈ attributeKinds ∨
+      ∃ e' ∈ validate .post E, e'.kind = .duplicateStructFields ∧ e'.typename = e.typename := by
+  obtain ⟨hstructs, henums⟩ := post_clean_decls hdbu hwf hpre hE
+  intro e he
+  obtain ⟨d, hd, hed⟩ := List.mem_flatMap.mp he
+  cases d with
+  | alias a => cases hed
+  | enum en =>
+    exfalso
+    have hen := henums en hd
+    unfold validate at hpre
+    rw [List.flatMap_eq_nil_iff] at hpre
+    have := hpre _ hen
+    simp only [declErrors] at this hed
+    rw [this] at hed; cases hed
+  | struct M' =>
+    obtain ⟨hclean, hno⟩ := hstructs M' hd
+    simp only [declErrors, structErrors, List.mem_append, List.mem_flatMap] at hed
+    rcases hed with (hdup | ⟨m, hm, hem⟩) | hattr
+    · -- the duplicate-member error itself
+      refine Or.inr ⟨e, he, ?_, rfl⟩
+      split at hdup
+      · cases hdup
+      · simp [mkErr] at hdup; subst hdup; rfl
+    · cases m with
+      | inlinePlaceholder t c =>
+        exfalso
+        have : (M'.fields.any Member.isPlaceholder) = true := List.any_eq_true.mpr ⟨_, hm, rfl⟩
+        simp [noPlaceholders, this] at hno
+      | field f' =>
+        simp only [memberErrors] at hem
+        by_cases hnd : (M'.structFields.map (·.name)).Nodup
+        · have hst : StableOK E (envOf M') f' :=
+            stable_env_le (fun r _ k h => memberEnv_sub_envOf hnd h) (hclean f' (mem_structFields_iff.mpr hm)).1
+          have hnil := stableFieldErrors_nil_iff.mpr hst
+          rcases mem_fieldErrors_split hem with h | h | ⟨a, _, h⟩
+          · rw [hnil] at h; cases h
+          · exact Or.inl (integerErrors_kinded e h)
+          · exact Or.inl (arraySortErrors_kinded e h)
+        · right
+          have hne := duplicateNames_ne_nil_of_not_nodup (l := M'.fields.filterMap Member.name?) (by rw [filterMap_name_eq]; exact hnd)
+          cases hdn : duplicateNames (M'.fields.filterMap Member.name?) with
+          | nil => exact absurd hdn hne
+          | cons x rest =>
+            refine ⟨mkErr M'.name (x :: rest) .duplicateStructFields "duplicate struct fields", ?_, rfl, ?_⟩
+            · apply mem_validate_of_decl hd
+              simp [declErrors, structErrors, hdn]
+            · exact (fieldErrors_names hem).1.symm
+    · split at hattr
+      · exact Or.inl (structAttributeErrors_kinded e hattr)
+      · cases hattr
+
+/-! ### the boundary: each side condition is necessary, and the attribute kinds are reachable -/
+
+private def u8 : FieldType := .int ⟨true, 1, none⟩
+private def u16 : FieldType := .int ⟨true, 2, none⟩
+private def modeEnum : Decl := .enum { name := "Mode", base := ⟨true, 1, none⟩, values := [⟨"ROAD", .int 1, none⟩, ⟨"SEA", .int 2, none⟩] }
+private def thingStruct : Decl :=
+  .struct { name := "Thing", fields := [.field { name := "tag", fieldType := u16 }], attributes := some [⟨"is_size_implicit", []⟩] }
+
+/-- positive example: a template with a size-prefixed array, a `sizeof` and a condition, used at two named inline sites -/
+def stagesExample : Schema :=
+  [ modeEnum, thingStruct,
+    .struct { disposition := some "inline", name := "Tpl", fields :=
+      [ .field { name := "size", fieldType := u16 },
+        .field { name := "__value__", fieldType := .array ⟨.int ⟨true, 1, none⟩, .str "size", {}⟩ },
+        .field { name := "len", fieldType := u16, value := .scalar (.str "body"), disposition := some "sizeof" },
+        .field { name := "mode", fieldType := .named "Mode" },
+        .field { name := "body", fieldType := .named "Thing",
+                 value := .cond ⟨.str "ROAD", "equals", "mode"⟩ } ] },
+    .struct { name := "Host", fields :=
+      [ .field { name := "aa", fieldType := .named "Tpl", disposition := some "inline" },
+        .field { name := "count", fieldType := u8 },
+        .field { name := "bb", fieldType := .named "Tpl", disposition := some "inline" } ] } ]
+
+theorem toOption_eq_some {α : Type} {x : Except String α} {a : α} (h : x.toOption = some a) : x = .ok a := by
+  cases x with
+  | ok b => simp [Except.toOption] at h; rw [h]
+  | error e => simp [Except.toOption] at h
+
+example : DeclaredBeforeUse stagesExample ∧ refsWellFormed stagesExample = true ∧ validate .pre stagesExample = [] := by decide
+
+/-- the example expands (prefixed sizes, re-pointed `sizeof`, prefixed condition members) and the theorem applies to it -/
+example : ((postProcess stagesExample).toOption.map fun E => (E.structs.map fun M => (M.name, M.structFields.map fun f =>
+      (f.name, stableRefs f)), validate .post E)) =
+    some ([("Thing", [("tag", [])]),
+           ("Tpl", [("size", []), ("__value__", ["size"]), ("len", ["body"]), ("mode", []), ("body", ["mode"])]),
+           ("Host", [("aa_size", []), ("aa", ["aa_size"]), ("aa_len", ["aa_body"]), ("aa_mode", []), ("aa_body", ["aa_mode"]),
+                     ("count", []),
+                     ("bb_size", []), ("bb", ["bb_size"]), ("bb_len", ["bb_body"]), ("bb_mode", []), ("bb_body", ["bb_mode"])])], []) := by
+  decide
+
+example : ∀ E, postProcess stagesExample = .ok E → ∀ e ∈ validate .post E, e.kind ∈ attributeKinds ∨
+    ∃ e' ∈ validate .post E, e'.kind = .duplicateStructFields ∧ e'.typename = e.typename :=
+  fun _ hE => post_errors_after_clean_pre (by decide) (by decide) (by decide) hE
+
+/-- a name clash created by inlining: `Host` inlines `Base` (whose condition on `kind : Mode` is fine) and declares its own
+    `kind : uint8` afterwards; `field_map` keeps the last `kind`, so after expansion the inherited condition is checked against
+    `uint8` -/
+def clashWitness : Schema :=
+  [ modeEnum,
+    .struct { disposition := some "abstract", name := "Base", fields :=
+      [ .field { name := "kind", fieldType := .named "Mode" },
+        .field { name := "opt", fieldType := u8, value := .cond ⟨.str "ROAD", "equals", "kind"⟩ } ] },
+    .struct { name := "Host", fields := [ .inlinePlaceholder "Base" none, .field { name := "kind", fieldType := u8 } ] } ]
+
+/-- **clash_breaks_condition**: with all source-side conditions true and a clean PRE stage, a name clash after inlining makes a
+    member-level clause fail (condition value not numeric) - together with the duplicate-member error, as the theorem says -/
+theorem clash_breaks_condition :
+    DeclaredBeforeUse clashWitness ∧ refsWellFormed clashWitness = true ∧ validate .pre clashWitness = [] ∧
+    ((postProcess clashWitness).toOption.map fun E => (validate .post E).map fun e => (e.typename, e.fieldNames, e.kind)) =
+      some [("Host", ["kind"], .duplicateStructFields), ("Host", ["opt"], .notNumeric)] := by
+  decide
+
+/-- a reference to the name of a named inline site: the site vanishes when it is expanded (the template has no `__value__`) -/
+def inlineSiteRefWitness : Schema :=
+  [ .struct { disposition := some "inline", name := "Tpl", fields := [.field { name := "size", fieldType := u8 }] },
+    .struct { name := "Host", fields :=
+      [ .field { name := "aa", fieldType := .named "Tpl", disposition := some "inline" },
+        .field { name := "items", fieldType := .array ⟨.int ⟨true, 1, none⟩, .str "aa", {}⟩ } ] } ]
+
+/-- **inline_site_reference_breaks**: `refsWellFormed` is necessary - a size member that is a named inline site resolves before
+    expansion and not after, with no other error around -/
+theorem inline_site_reference_breaks :
+    DeclaredBeforeUse inlineSiteRefWitness ∧ refsWellFormed inlineSiteRefWitness = false ∧ validate .pre inlineSiteRefWitness = [] ∧
+    ((postProcess inlineSiteRefWitness).toOption.map fun E => (validate .post E).map fun e => (e.typename, e.fieldNames, e.kind)) =
+      some [("Host", ["items"], .unknownSizeProperty)] := by
+  decide
+
+/-- a reference to `__value__` inside a template (the grammar cannot write it, an AST can): the member is renamed to the site's
+    name while the reference is prefixed -/
+def valueRefWitness : Schema :=
+  [ .struct { disposition := some "inline", name := "Tpl", fields :=
+      [ .field { name := "__value__", fieldType := u8 },
+        .field { name := "items", fieldType := .array ⟨.int ⟨true, 1, none⟩, .str "__value__", {}⟩ } ] },
+    .struct { name := "Host", fields := [ .field { name := "aa", fieldType := .named "Tpl", disposition := some "inline" } ] } ]
+
+/-- **value_reference_breaks**: the `__value__` clause of `refsWellFormed` is necessary -/
+theorem value_reference_breaks :
+    DeclaredBeforeUse valueRefWitness ∧ refsWellFormed valueRefWitness = false ∧ validate .pre valueRefWitness = [] ∧
+    ((postProcess valueRefWitness).toOption.map fun E => (validate .post E).map fun e => (e.typename, e.fieldNames, e.kind)) =
+      some [("Host", ["aa_items"], .unknownSizeProperty)] := by
+  decide
+
+/-- references introduced by attributes are invisible before `apply_attributes` -/
+def attributeWitness : Schema :=
+  [ .struct { name := "Elem", fields := [.field { name := "key", fieldType := u8 }] },
+    .struct { name := "Host", fields :=
+      [ .field { name := "size", fieldType := u16, attributes := some [⟨"sizeref", [.str "nosuch", .int 2]⟩] },
+        .field { name := "count", fieldType := u8 },
+        .field { name := "items", fieldType := .array ⟨.named "Elem", .str "count", {}⟩,
+                 attributes := some [⟨"sort_key", [.str "nokey"]⟩] } ],
+              attributes := some [⟨"size", [.str "gone"]⟩] } ]
+
+/-- **attribute_reference_only_seen_after_expansion**: with every hypothesis of `post_errors_after_clean_pre` true the attribute
+    kinds do occur - the PRE stage cannot see them -/
+theorem attribute_reference_only_seen_after_expansion :
+    DeclaredBeforeUse attributeWitness ∧ refsWellFormed attributeWitness = true ∧ validate .pre attributeWitness = [] ∧
+    ((postProcess attributeWitness).toOption.map fun E => (validate .post E).map fun e => (e.typename, e.fieldNames, e.kind)) =
+      some [("Host", ["size"], .unknownSizerefProperty), ("Host", ["items"], .unknownSortKey), ("Host", [], .unknownAttributeProperty)] := by
+  decide
+
 /-
-Stated, not proved:
-* `expansion_preserves_member_consistency : ConsistentIn .pre S -> postProcess S = ok E -> member-level part of ConsistentIn .post E`
-  (needs C05's re-pointing theorem lifted to whole layouts).
+Still not proved:
+* the struct-level clauses (`AttributesConsistent`) are not derived from anything visible before expansion: they speak about the
+  expanded layout by their nature (inherited members), so `Consistent` keeps stating them for the expanded schema.
+* `expand_preserves_consistent` for schemas that are not in declared-before-use order (the Python result itself depends on the
+  order there, see C05).
 -/
 
 end SymbolVerif.C06
